@@ -53,11 +53,31 @@ func wordBytes(w uint32) []byte {
 	return []byte{byte(w), byte(w >> 8), byte(w >> 16), byte(w >> 24)}
 }
 
-// drawInsWord draws an instruction of cfg (uniformly over mnemonics) with all
-// bits outside of its fixed pattern random.
+// drawIns draws an instruction of cfg: first the extension group (so the
+// small M and A groups are as frequent as the base set), then a mnemonic.
+func drawIns(t *rapid.T, cfg rvref.Cfg) *rvref.Ins {
+	groups := map[byte][]*rvref.Ins{}
+	var order []byte
+	for _, in := range rvref.Table(cfg) {
+		if _, ok := groups[in.Ext]; !ok {
+			order = append(order, in.Ext)
+		}
+		groups[in.Ext] = append(groups[in.Ext], in)
+	}
+	g := groups[order[rapid.IntRange(0, len(order)-1).Draw(t, "ext")]]
+	// rapid biases integers towards the lower bound; mix with a second draw so
+	// late table entries are not starved.
+	i := rapid.IntRange(0, len(g)-1).Draw(t, "ins")
+	if rapid.Bool().Draw(t, "insFromEnd") {
+		i = len(g) - 1 - i
+	}
+	return g[i]
+}
+
+// drawInsWord draws an instruction of cfg with all bits outside of its fixed
+// pattern random.
 func drawInsWord(t *rapid.T, cfg rvref.Cfg) (*rvref.Ins, uint32) {
-	tab := rvref.Table(cfg)
-	in := tab[rapid.IntRange(0, len(tab)-1).Draw(t, "ins")]
+	in := drawIns(t, cfg)
 	r := rapid.Uint32().Draw(t, "free")
 	return in, (r &^ in.Mask) | in.Match
 }
